@@ -8,6 +8,8 @@ package harness
 import (
 	"encoding/json"
 	"fmt"
+	"math/big"
+	"os"
 	"sort"
 	"strings"
 
@@ -68,6 +70,28 @@ func (e *Env) queryLines(st *Step, all bool) []string {
 			if err != nil {
 				return "", err
 			}
+			// C11: the reported staking-denom supply is the bank supply net of the alliance-bonded amount
+			// (reference computation from the staking view of the state: Σ over bonded validators of the module's
+			// shares × tokens / delegator shares, truncated as GetAllianceBondedAmount truncates)
+			want := new(big.Int).Set(post.SupplyOf(d))
+			if d == post.BondDenom {
+				sum := new(big.Int)
+				e36 := new(big.Int).Exp(big.NewInt(10), big.NewInt(36), nil)
+				for _, sv := range post.SVals {
+					if sv.Status != 3 || sv.ModShares == nil || sv.DelShares.Sign() == 0 {
+						continue
+					}
+					t := new(big.Int).Mul(sv.ModShares, sv.Tokens)
+					t.Mul(t, e36)
+					t.Quo(t, sv.DelShares)
+					t.Quo(t, bigP)
+					sum.Add(sum, t)
+				}
+				want.Sub(want, sum.Quo(sum, bigP))
+			}
+			if r.Amount.Amount.BigInt().Cmp(want) != 0 {
+				st.pfail("C11", "supply_query_not_net", "SupplyOf(%s) reports %s, supply net of the alliance-bonded amount is %s", dn, r.Amount.Amount, want)
+			}
 			return r.Amount.Amount.String(), nil
 		})
 	}
@@ -124,6 +148,22 @@ func (e *Env) queryLines(st *Step, all bool) []string {
 			st.pfail("C20", "binding_time_truncated", "binding alliance query of denom %d reports start %d / last change %d, record has %s / %s",
 				d, resp.RewardStartTime, resp.LastRewardChangeTime, a.Start, a.Last)
 		}
+	}
+	if os.Getenv("VERIF_DEBUG_REWARDS") != "" {
+		for i := range post.Dels {
+			dl := &post.Dels[i]
+			if post.SVal(dl.Val) == nil || post.Asset(dl.Denom) == nil {
+				continue
+			}
+			c2, _ := e.Ctx.CacheContext()
+			r, err := qs.AllianceDelegationRewards(c2, &types.QueryAllianceDelegationRewardsRequest{DelegatorAddr: e.user(dl.Del).String(), ValidatorAddr: e.Vals[dl.Val].String(), Denom: Denoms[dl.Denom]})
+			if err != nil {
+				fmt.Fprintf(os.Stderr, "REW %s (%d,%d,%d) err %v\n", st.Src, dl.Del, dl.Val, dl.Denom, err)
+			} else {
+				fmt.Fprintf(os.Stderr, "REW %s (%d,%d,%d) %s\n", st.Src, dl.Del, dl.Val, dl.Denom, r.Rewards)
+			}
+		}
+		fmt.Fprintf(os.Stderr, "POOL %s\n", e.App.BankKeeper.GetAllBalances(cctx, e.acctAddr[AccPool]))
 	}
 	dr := func(rs []types.DelegationResponse, withDel bool) string {
 		var xs []string
